@@ -19,10 +19,10 @@ func init() {
 		Title: "A size survives every marshal form and configuration",
 		Run:   runC04,
 		Explanation: "Writer/reader agreement over constants, each a necessary condition of the round trip. C04.forms: MarshalJSON as a decision table over the two package switches emits object / quoted text / bare number; the object is {\"<ObjectKeyValue>\":<Shorten value>,\"<ObjectKeyUnit>\":\"<Shorten unit>\"}; MarshalText selects bare bytes or Formatter(nil, s, 0) by DisableMarshalTextUnit; DefaultRule's initialiser enables the object and string forms; UnmarshalText masks the rule to RuleDisableUnit, UnmarshalJSON passes DefaultRule. " +
-			"C04.exact: the reading side is exact near 2^64 — newSize as a decision table with the product checked through the high word of bits.Mul64 (C08's rules under this property). C04.quote: the string form is exactly '\"' + text + '\"' (the shift-by-one copy idiom is checked piece by piece). " +
+			"C04.exact: the reading side is exact near 2^64 — newSize as a decision table with the product checked through the high word of bits.Mul64 (C08's rules under this property), and the text path reads its digits with strconv.ParseUint(·, 10, 64) on every target (C08.text). C04.quote: the string form is exactly '\"' + text + '\"' (the shift-by-one copy idiom is checked piece by piece). " +
 			"C04.vocab: Shorten evaluated abstractly (as C13.shorten) returns (s >> 10k, k-th binary unit) and unitToValues maps that unit to 2^(10k), so value × multiplier rebuilds what Shorten split. " +
 			"C04.keys: the reader switches on the marshal key constants after strings.ToLower, and the constants are lower-case. " +
-			"C04.sep: the text parser's scanning loop as a transfer table over a partition of all rune values × (nothing kept yet / something kept), by abstract interpretation of the loop body: space is skipped everywhere, '_' and no-break space only after the first digit, digits are kept, every other rune ends the number — so what the pretty formatter emits (\" \") is skipped before and between digits and before the unit; units are letters only, so the hand-made quoting needs no escaping. C04.limit: MaxInputLength admits the longest emitted form. C04.render: String / PrettyString are the formatter's bytes converted, nothing inserted or replaced afterwards (C13.methods under this property).",
+			"C04.sep: the text parser's scanning loop as a transfer table over a partition of all rune values × (nothing kept yet / something kept), by abstract interpretation of the loop body: space is skipped everywhere, '_' and no-break space only after the first digit, digits are kept, every other rune ends the number — so what the pretty formatter emits (\" \") is skipped before and between digits and before the unit; units are letters only, so the hand-made quoting needs no escaping. C04.limit: MaxInputLength admits the longest emitted form. C04.render: String / PrettyString are the formatter's bytes converted, nothing inserted or replaced afterwards, and those bytes are the decimal digits of the shortened value (grouped in threes under FormatPretty) followed by the unit (C13.methods and C13.format under this property).",
 		NotDecided:  []string{"the arithmetic composition for all 2^64 values (digit grouping composed with ParseUint of the regrouped digits)", "nested encoding/json behaviour (stdlib)"},
 		Assumptions: []string{"strconv.AppendUint/FormatUint print canonical decimal; ParseUint inverts them"},
 		Technique:   "decision-table extraction + constant/table agreement + SSA idiom rules",
@@ -52,12 +52,13 @@ func runC04(e *Env) {
 		e.FlowAs(map[string]string{"C08.ovf": "C04.exact"}, func(c *flow.Ctx) { c.RuleMulOverflow(ns) })
 	}
 	ruleC08NewSize(e)
+	ruleC08Text(e) // the digits are read with ParseUint(·, 10, 64), whatever the platform
 	for i := n1; i < len(e.S.Obs); i++ {
 		if strings.HasPrefix(e.S.Obs[i].Rule, "C08.") {
 			e.S.Obs[i].Rule = "C04.exact"
 		}
 	}
-	e.S.Floor("C04.exact", 8)
+	e.S.Floor("C04.exact", 14)
 	ruleC04Keys(e)
 	ruleC04Sep(e)
 	ruleLimitAccept(e, "C04.limit", "size")
@@ -68,7 +69,9 @@ func runC04(e *Env) {
 	e.S.Floor("C04.sep", 3)
 	// "the plain and pretty string renderings": String / PrettyString are the formatter's bytes, nothing added (C13.methods)
 	e.As(map[string]string{"C13.methods": "C04.render"}, func() { ruleC13Methods(e) })
-	e.S.Floor("C04.render", 7)
+	// … and those bytes are the digits of the shortened value, grouped in threes where asked, then the unit (C13.format)
+	ruleFormatSem(e, "C04.render")
+	e.S.Floor("C04.render", 11)
 }
 
 // segs flattens an abstract byte-sequence value built by append / strconv.AppendUint into readable segments.
